@@ -302,6 +302,21 @@ def check_helper(case, r: R):
                 if (text[-1] == '↓') != (z.real > 0):
                     r.fail(f'{h}:direction', f'value {z.real!r} rendered {text!r}')
                 judge_real(r, h, text[:-1], abs(z.real), p, 'W', DEF, allow_sign=False)
+        elif h == 'print_active_reactive_power':
+            text = dsp.print_active_reactive_power(z, p)
+            lines = text.split('\n')
+            if not lines[0].startswith('P: ') or len(lines) > 2 or (len(lines) == 2 and not lines[1].startswith('Q: ')):
+                return r.fail(f'{h}:unparseable', repr(text))
+            for tag, part, val, unit in (('P', lines[0][3:], z.real, 'W'),) + ((('Q', lines[1][3:], z.imag, 'var'),) if len(lines) == 2 else ()):
+                if not part or part[0] not in '↓↑':
+                    r.fail(f'{h}:unparseable', repr(text))
+                    continue
+                if (part[0] == '↓') != (val > 0) and val != 0:
+                    r.fail(f'{h}:{tag}-direction', f'value {z!r} rendered {text!r}')
+                judge_real(r, f'{h}:{tag}', part[1:], abs(val), p, unit, DEF, allow_sign=False)
+            # the helper hides a reactive part of at most 1e-4 var (its own documented threshold); above it Q must be shown
+            if len(lines) == 1 and abs(z.imag) > 1.0001e-4:
+                r.fail(f'{h}:Q-omitted', f'value {z!r} rendered {text!r}')
         elif h == 'print_sinosoidal':
             check_sinusoid(case, r, dsp)
 
@@ -348,7 +363,7 @@ def check_sinusoid(case, r: R, dsp):
 
 
 HELPERS = ['print_real', 'print_abs', 'print_complex', 'print_resistance', 'print_conductance', 'print_impedance',
-           'print_capacitance', 'print_inductance', 'print_active_power', 'print_sinosoidal']
+           'print_capacitance', 'print_inductance', 'print_active_power', 'print_active_reactive_power', 'print_sinosoidal']
 
 
 @st.composite
